@@ -292,14 +292,14 @@ def run_check(mod, tier, seed, replay=None):
         print(f"  mechanism={v['mech']} detail={v['detail'][:400]}")
     if len(unlisted) > sum(min(5, n) for n in seen_mech.values()):
         print(f"  ({len(unlisted)} unlisted violations in total: {dict(seen_mech)})")
+    extra = {}
+    if hasattr(mod, 'finalize'):
+        extra = mod.finalize(cnt, tier) or {}
     # reach requirements
     missing = []
     for k, n in getattr(mod, 'REQUIRE', {}).get(tier, {}).items():
         if cnt.get(k, 0) < n:
             missing.append(f"{k}={cnt.get(k, 0)}<{n}")
-    extra = {}
-    if hasattr(mod, 'finalize'):
-        extra = mod.finalize(cnt, tier) or {}
     ev = {
         'property_id': pid, 'tier': tier, 'seed': seed, 'level': getattr(mod, 'LEVEL', 'exploration'),
         'coverage': {
@@ -328,6 +328,9 @@ def run_check(mod, tier, seed, replay=None):
     print("  observed: " + ', '.join(f"{k}={cnt[k]}" for k in keys[:60]))
     if unlisted:
         return 1
+    herr = cnt.get('_harness_errors', 0)
+    if herr:
+        fails = fails + [f"{herr} case(s) crashed inside the harness, e.g. {inconcl[0][:300] if inconcl else ''}"]
     if fails or missing or len(sigs) < 2:
         for f_ in fails:
             print(f"INCONCLUSIVE property={pid} {f_}")
